@@ -47,7 +47,25 @@ def build(case, pattern=None):
     raise ValueError(form)
 
 
+def run_layers(part, case):
+    from cspuz import graph
+
+    n, edges, m = case["n"], case["edges"], len(case["edges"])
+
+    def post(s, g):
+        e = s.bool_array(m)
+        graph.active_edges_acyclic(s, e, g)
+        return list(e)
+
+    menu = [[False] * m, [True] * m, [k < 3 for k in range(m)], [k >= 3 for k in range(m)], [k != 0 for k in range(m)], [k != m - 1 for k in range(m)]]
+    gcheck.run_two_layers(part, "acyclic[two-layers]", case, post, m, lambda p: graphref.edges_acyclic(n, [e for e, b in zip(edges, p) if b]), menu)
+    part.add("scale", (n, m))
+
+
 def run_case(part, case, prange=None):
+    if case.get("layers"):
+        run_layers(part, case)
+        return
     n, edges, form = case["n"], case["edges"], case["form"]
     m = len(edges)
     key = "acyclic[%s]" % form
@@ -114,6 +132,9 @@ def cases_for(tier):
                 forms = ["vars", "array1d", "neg", "const", "or", "paired"] if (var == 0 and len(edges) <= 4) else ["vars"]
                 for form in forms:
                     out.append({"form": form, "n": n, "edges": es})
+    # the same Graph object and Solver used for two independent edge layers
+    for n, es in gcheck.layer_graphs():
+        out.append({"form": "vars", "n": n, "edges": list(es), "layers": 2, "patterns": []})
     # many more vertices than edges: every multigraph with a few edges on 6..9 vertices (isolated vertices in every position)
     for n, maxe in ([(6, 3), (7, 2), (8, 2)] if tier == "quick" else [(6, 4), (7, 3), (8, 3), (9, 2)]):
         for es in graphref.sparse_multigraphs(n, maxe, 2):
